@@ -594,7 +594,7 @@ pub fn run(op: &str, a: &Args) -> Option<Outcome> {
         ["xpath", "deep_inproc"] => Some(crate::ops_seq::xpath_deep_inproc(arg(a, "doc"))),
         ["xpath", "corpus_repeat"] => Some(crate::ops_seq::xpath_corpus_repeat(arg(a, "doc").parse().unwrap_or(0), arg(a, "query"), arg(a, "expected"))),
         ["dom", "edit_views"] | ["dom", "edit_views1"] => Some(crate::ops_order::dom_edit_views(arg(a, "steps"))),
-        ["dom", "edit_order"] | ["dom", "edit_order1"] => Some(crate::ops_order::dom_edit_order(arg(a, "steps"))),
+        ["dom", "edit_order"] | ["dom", "edit_order1"] | ["dom", "edit_order0"] => Some(crate::ops_order::dom_edit_order(arg(a, "steps"))),
         ["names", "accepted"] => Some(crate::ops_seq::names_accepted(arg(a, "position"), arg(a, "name"))),
         ["xpath", "union_algebra"] => Some(crate::ops_seq::xpath_union_algebra(arg(a, "a"), arg(a, "b"))),
         ["xpath", "ctx_series"] => Some(crate::ops_seq::xpath_ctx_series(arg(a, "first"), arg(a, "second"))),
@@ -645,6 +645,7 @@ fn mk(pairs: &[(&str, &str)]) -> Args {
 pub fn grid(op: &str, limit: usize) -> (usize, Vec<(Args, Outcome)>) {
     let mut n = 0usize;
     let mut bad = vec![];
+    let isolate = std::env::var("REPLAY_ISOLATE").is_ok();
     let try_one = |a: Args, n: &mut usize, bad: &mut Vec<(Args, Outcome)>| {
         if bad.len() >= limit {
             *n += 1;
@@ -652,7 +653,10 @@ pub fn grid(op: &str, limit: usize) -> (usize, Vec<(Args, Outcome)>) {
         }
         // only inputs the operation actually evaluated count as cases (an unknown operation or an input outside the mirror's
         // domain answers None): a grid that evaluates nothing reports 0 cases, which the driver treats as UNDECIDED
-        if let Some(o) = run(op, &a) {
+        // REPLAY_ISOLATE: every case in a process of its own (the driver asks for it after a grid run died of a signal -- a stack
+        // overflow, an abort -- to learn WHICH input kills it)
+        let res = if isolate { crate::ops_more::run_isolated(op, &a) } else { run(op, &a) };
+        if let Some(o) = res {
             *n += 1;
             if !o.agree() {
                 bad.push((a, o));
@@ -818,6 +822,12 @@ pub fn grid(op: &str, limit: usize) -> (usize, Vec<(Args, Outcome)>) {
                     let two = format!("{};{}", f, g);
                     try_one(mk(&[("steps", two.as_str())]), &mut n, &mut bad);
                 }
+            }
+        }
+        ["dom", "edit_order0"] => {
+            // the single steps only (C07's quick tier: a node-set of an edited document is in document order too)
+            for o in crate::ops_order::singles() {
+                try_one(mk(&[("steps", o.as_str())]), &mut n, &mut bad);
             }
         }
         ["dom", "edit_order1"] => {
